@@ -11,7 +11,7 @@ Transcribes (pinned tree + the two `fix:` commits of branch fix-c02):
   (l. 1098-1106, no schema), `ElementNode.nsmap` (l. 813-820), `ElementNode.iter` / `DocumentNode.iter`
   (l. 988-998, 1648-1655), `get_document_node` (dummy document, l. 1364-1370),
   string values (l. 335, 465, 587, 665, 725-729, 1168-1174, 1763-1771).
-* `elementpath/etree.py`           `etree_iter_strings` (l. 107-132, `normalize=False` branch).
+* `elementpath/etree.py`           `etree_iter_text` (`normalize=False`; the document-order walk added by fix F02a).
 Core Lean only.
 -/
 namespace EPV.Builder
@@ -88,12 +88,12 @@ def optList (o : Option String) : List String :=
   | some s => [s]
 
 mutual
-/-- `etree_iter_strings(elem)`: `for e in elem.iter()` visits in pre-order; for a comment/PI only the
-tail is produced (after fix 86a3670), for an element its `text` and — *immediately*, i.e. before the
-element's descendants — its `tail`; nothing for the tail of the start element (`e is not elem`). -/
+/-- `etree_iter_text(elem)` (fix F02a: explicit-stack walk in document order): the `text` of an
+element, then the strings of its children, each child followed by its `tail`; a comment / PI
+contributes only its tail; nothing for the tail of the start element. -/
 def chunksOne (isTop : Bool) : XTree → List String
   | .elem _ _ _ text kids tail =>
-      optList text ++ (if isTop then [] else optList tail) ++ chunksKids kids
+      optList text ++ chunksKids kids ++ (if isTop then [] else optList tail)
   | .comment _ tail => if isTop then [] else optList tail
   | .pi _ _ tail => if isTop then [] else optList tail
 def chunksKids : List XTree → List String
@@ -101,32 +101,8 @@ def chunksKids : List XTree → List String
   | t :: ts => chunksOne false t ++ chunksKids ts
 end
 
-/-- `EtreeElementNode.string_value` without schema: `''.join(etree_iter_strings(self.value))` -/
+/-- `EtreeElementNode.string_value` without schema: `''.join(etree_iter_text(self.value))` -/
 def elemStringValue (t : XTree) : String := concat (chunksOne true t)
-
-/-! ### trigger predicate of known finding F02a
-
-`etree_iter_strings` yields the tail of an element *before* the strings of its descendants.  The
-resulting string can differ from the XDM string value only when, at some proper descendant element,
-the tail and the string below the element do not commute (`tail ++ below ≠ below ++ tail`; in
-particular both are non-empty). -/
-
-mutual
-def lateOne : XTree → Bool
-  | .elem _ _ _ _ kids tail =>
-      (concat (optList tail) ++ concat (chunksKids kids) != concat (chunksKids kids) ++ concat (optList tail))
-        || lateKids kids
-  | .comment .. => false
-  | .pi .. => false
-def lateKids : List XTree → Bool
-  | [] => false
-  | t :: ts => lateOne t || lateKids ts
-end
-
-/-- `lateTail t`: the string value of the element `t` lies in the region of finding F02a -/
-def lateTail : XTree → Bool
-  | .elem _ _ _ _ kids _ => lateKids kids
-  | _ => false
 
 /-! ### the builders -/
 
